@@ -11,6 +11,15 @@ NOTE = ("Trusted: CrossHair 0.0.110 + z3, the overlay venv, the environment stub
         "isinstance shim), the harness oracles under /verif/vf. Grammars are a fixed corpus (classes cannot be symbolic); all bounds are in evidence.assumptions.")
 
 CLAIMED = {
+    "C13": dict(
+        text="SequentialEvaluator and ParallelEvaluator (pool replaced by its documented map contract), Individual's fitness cache, both problem classes "
+             "(incl. the default multi-objective aggregate with per-component and scalar minimize) and Population run on populations whose size, "
+             "pre-evaluated subset and repeated positions are symbolic, with per-program symbolic fitness values. An append-only invocation log kept by "
+             "the fitness stub is the oracle: recorded components == the stub's value for that individual's program, aggregate == v / -v / signed sum, "
+             "<= 1 invocation per (individual, problem), evaluator counter == number of invocations, both evaluators leave identical stores and counters. "
+             "Path trees exhausted. Bounds: populations of 1-3 (thorough 4), two problems, tables of 2 values.",
+        design_ref="DESIGN.md section 4 (C13)",
+    ),
     "C12": dict(
         text="The real single- and multi-objective trackers, fed individuals one at a time and in batches, and the real search() of random search, "
              "hill climbing, (1+1) and GP (opaque-token representation) run with the fitness of every program chosen by a symbolic selector into a small "
